@@ -79,6 +79,8 @@ Proof.
     destruct (CF r) as (_ & _ & _ & Ex). rewrite Ex in E, XM. rewrite E in XM. rewrite XM. eapply (G_xmode _ _ G); eauto.
   - intros r Hr Ep T. rewrite L in Hr. destruct (CF r) as (_ & En & Ep' & _). rewrite En. rewrite Ep' in Ep.
     apply (G_root _ _ G); auto. apply TR; auto.
+  - intros r p Hr Lv N E. rewrite L in Hr. destruct (CF r) as (_ & _ & Ep & _). rewrite Ep in E.
+    apply NF. apply (G_pnonf _ _ G r p Hr); auto; [apply X; auto | apply NF; auto].
   - apply (S_keys _ _ X). apply G.
   - rewrite L. apply G.
 Qed.
